@@ -62,6 +62,8 @@ def harnesses():
         nm = PL.get(plan, "split%d" % K)
         add("c11_nb_close_%d_%s" % (LC, nm), "nb_close::<_, %d, %d, %d>" % (LC, plan, K), 8, "quick" if (LC, plan) in ((1, 0), (1, 2)) else "thorough",
             "recv_nonblocking, Close(%d bytes), %s: first read returns %s header byte(s); must behave like blocking receive" % (LC, nm, "one" if plan != 0 else "two"), frames=1, plan=plan)
+    add("c11_nb_close_gap_1", "nb_close_gap::<_, 1>", 8, "quick", "recv_nonblocking: one header byte arrived, the rest arrives LATER (WouldBlock in between): the frame is still received, not `nothing yet`", frames=1, plan=2)
+    add("c11_nb_close_gap_0", "nb_close_gap::<_, 0>", 8, "thorough", "same with an empty Close", frames=1, plan=2)
     for L in (0, 1, 3):
         add("c11_send_%d" % L, "send_frames::<_, %d>" % L, 8, "quick" if L <= 1 else "thorough", "send(binary, %d symbolic bytes) + ping(): exactly two well-formed unmasked frames" % L)
     add("c11_nonblocking_idle", "recv_nonblocking_idle", 6, "quick", "recv_nonblocking with nothing to read: `nothing yet`, nothing written")
